@@ -417,6 +417,20 @@ def run(workdir, tier, seed):
     if can.get('status') != 'FAILED':
         res.update(status='undecided', reason='vacuity guard: the canary harness did not fail')
         return res
+    # a failure seen in the interleaved -j output is confirmed by running that harness alone: under load the thread blocks of the
+    # parallel run can interleave so that one harness's verdict (e.g. the canary's FAILED) is read as another's
+    for h in expected:
+        if hs[h]['status'] != 'SUCCESSFUL':
+            try:
+                pr1 = subprocess.run(['cargo', 'kani', '-Z', 'function-contracts', '-Z', 'stubbing', '--target-dir', tgt, '--output-format', 'terse', '--harness', h],
+                                     cwd=crate, capture_output=True, text=True, timeout=1200, env=env)
+                one = parse_kani(pr1.stdout + '\n' + pr1.stderr).get(h)
+                if one and one.get('status'):
+                    res.setdefault('reconfirmed', {})[h] = {'parallel': hs[h]['status'], 'alone': one['status']}
+                    hs[h] = one
+            except subprocess.TimeoutExpired:
+                res.update(status='undecided', reason='kani timed out while confirming harness ' + h)
+                return res
     obligations = discharged = 0
     for h in expected:
         obligations += hs[h]['checks'] or 1
